@@ -19,7 +19,7 @@ RULE = ('cases = random expression trees (depth 1..3) over the differentiable op
 ASSUMPTIONS = ['real float64 only (as the property states)', 'the TT layer is covered by C20 with the same oracle']
 REQUIRED_REACH = ['grad:watch', 'grad:grad', 'grad:grad_list', '_tt_base:TT.norm', '_extras:dot', '_extras:bilinear_form', '_tt_base:TT.__getitem__', '_tt_base:TT.apply_mask', '_extras:cat',
                   '_extras:pad', '_extras:diag', '_tt_base:TT.mprod', '_tt_base:TT.__matmul__', '_tt_base:TT.sum', '_extras:kron', '_tt_base:TT.full']
-REQUIRED_COUNTS = {'api:grad.grad': 1, 'api:grad.grad_list': 1, 'api:grad.grad_list(all_in_one=False)': 1, 'api:grad.grad_list(all_in_one=True)': 1, 'api:autograd.grad': 1, 'gradients_compared': 300, 'fd_crosschecks': 100}
+REQUIRED_COUNTS = {'operands_from_library': 100, 'api:grad.grad': 1, 'api:grad.grad_list': 1, 'api:grad.grad_list(all_in_one=False)': 1, 'api:grad.grad_list(all_in_one=True)': 1, 'api:autograd.grad': 1, 'gradients_compared': 300, 'fd_crosschecks': 100}
 LINE_FUNCS = ['grad', 'grad_list', 'watch']
 T_OPS = ['add', 'sub', 'mul', 'smul', 'rsmul', 'sadd', 'rsub', 'sdiv', 'neg', 'matvec', 'vecmat', 'mprod', 'padslice', 'catslice', 'bcastmul', 'pos', 'tsadd', 'tsradd', 'tssub', 'tsmul', 'tsdiv']
 S_OPS = ['sum', 'sumk', 'dot', 'dotk', 'norm', 'norm2', 'bilinear', 'fullw', 'mask', 'item', 'slicesum', 'kronw', 'diagbil', 'opfull', 'optfull', 'opmatmul', 'diagop', 'noneslice']
@@ -337,6 +337,49 @@ def run_case(case, ctx):
     cores = {k: [c * 0.7 * (mag if j == 0 else 1.0) for j, c in enumerate(v)] for k, v in cores.items()}
     ctx.count('magnitude:%g' % mag)
     E.tt = {k: torchtt.TT([c.clone() for c in v]) for k, v in cores.items()}
+    # operand provenance: every third case takes operands from the library's own factories / copy routines instead of a harness-made core list
+    # (cores of one object that alias each other, or an earlier object, are indistinguishable by value but not by derivative)
+    if (case['seed'] // 6) % 3 == 0:
+        srcs = {'a': rr.choice(['ones', 'randn', 'svd', 'clone', 'detach', 'round', 'zeros+', 'rank1', 'slice']), 'A': rr.choice(['eye', 'ones_ttm', 'randn_ttm', 't', 'clone', 'rank1ttm'])}
+        for k2, src in srcs.items():
+            old = E.tt[k2]
+
+            def make(src=src, old=old, k2=k2):
+                if src == 'ones':
+                    return torchtt.ones(N, dtype=dt)
+                if src == 'zeros+':
+                    return torchtt.zeros(N, dtype=dt) + 0.5
+                if src == 'randn':
+                    return torchtt.randn(N, list(case['R'][k2]), dtype=dt)
+                if src == 'svd':
+                    return torchtt.TT(old.full(), eps=1e-14)
+                if src == 'clone':
+                    return old.clone()
+                if src == 'detach':
+                    return old.detach()
+                if src == 'round':
+                    return old.round(1e-15)
+                if src == 'rank1':
+                    return torchtt.rank1TT([torch.ones(n, dtype=dt) * 0.8 for n in N])
+                if src == 'slice':
+                    return old[tuple(slice(None) for _ in N)]
+                if src == 'eye':
+                    return torchtt.eye(N, dtype=dt)
+                if src == 'ones_ttm':
+                    return torchtt.ones([(n, n) for n in N], dtype=dt)
+                if src == 'randn_ttm':
+                    return torchtt.randn([(n, n) for n in N], list(case['R'][k2]), dtype=dt)
+                if src == 't':
+                    return old.t()
+                if src == 'rank1ttm':
+                    return torchtt.rank1TT([torch.eye(n, dtype=dt) * 0.9 for n in N])
+            obj = ctx.lib('factory:' + src, make)
+            if isinstance(obj, Raised) or not isinstance(obj, torchtt.TT) or list(obj.N) != list(N) or any(c.requires_grad for c in obj.cores):
+                continue
+            ctx.count('operand-from-library:' + src)
+            ctx.count('operands_from_library')
+            E.tt[k2] = obj
+            cores[k2] = [c.detach().clone() for c in obj.cores]
     leaf = {k: [c.clone().requires_grad_(True) for c in v] for k, v in cores.items()}
     E.dn = {k: contract(v) for k, v in leaf.items()}
     # untracked constants
